@@ -24,6 +24,9 @@ from zope.interface.adapter import (AdapterRegistry, VerifyingAdapterRegistry,
 from .common import wmod, newworld
 from .. import sched
 
+# the library's own locks become scheduler-aware (a real lock held by a
+# pre-empted thread would block the only thread allowed to run)
+ADOPTED_LOCKS = sched.adopt_locks(_adapter, _interface, _declarations)
 IS_C = _adapter.LookupBase is not _adapter.LookupBaseFallback
 WATCH = {_adapter.__file__, _interface.__file__, _declarations.__file__}
 SENT = object()
@@ -684,7 +687,15 @@ class SchedWorld(World):
                     i += 1
 
 
+def follow_up(w, mutator):
+    """A later change of the looked-up specification, made after all threads
+    have ended: whatever the lookup object cached has to go then."""
+    w.I1.__bases__ = (w.I0, w.X) if mutator == 'rebase-interface' else (w.X,)
+
+
 def make_harness(flavour, mutator, entries):
+    flavour, _, variant = flavour.partition('+')
+
     def make():
         w = SchedWorld(flavour, extendors=(mutator in EXT_MUTATORS))
         # the lookup object already watches other specifications when the
@@ -692,6 +703,12 @@ def make_harness(flavour, mutator, entries):
         # changed() while a lookup adds to it)
         w.reg.lookup([w.X], w.P, '')
         w.reg.subscriptions([w.I0], w.PN)
+        if variant == 'watching':
+            # ... and the very specifications the threads are going to look
+            # up (through keys the threads do not use): an invalidation then
+            # stops watching exactly what a concurrent lookup starts to watch
+            w.reg.lookup([w.I1], w.PN, 'zz')
+            w.reg.lookup([implementedBy(w.K)], w.PN, 'zz')
         bodies = []
         if mutator:
             bodies.append(lambda: MUTATORS[mutator](w))
@@ -702,6 +719,7 @@ def make_harness(flavour, mutator, entries):
 
 
 def make_check(flavour, mutator, entries):
+    flavour = flavour.partition('+')[0]
     nm = 1 if mutator else 0
 
     def answers():
@@ -710,14 +728,19 @@ def make_check(flavour, mutator, entries):
         ta = World(flavour, audit=False, extendors=ext)
         if mutator:
             MUTATORS[mutator](ta)
+        later = {}
+        for e in ENTRIES:
+            t = World_after(flavour, mutator)
+            follow_up(t, mutator)
+            later[e] = norm(t.call(e))
         return ([norm(tb.call(e)) for e in entries], [norm(ta.call(e)) for e in entries],
-                {e: norm(World_after(flavour, mutator).call(e)) for e in ENTRIES})
+                {e: norm(World_after(flavour, mutator).call(e)) for e in ENTRIES}, later)
     cache = {}
 
     def check(x, w):
         if 'a' not in cache:
             cache['a'] = answers()
-        before, after, final = cache['a']
+        before, after, final, later = cache['a']
         for i, e in enumerate(x.errors):
             if e is not None:
                 return 'error', ('thread-raised', i, type(e).__name__, repr(e)[:200])
@@ -765,6 +788,13 @@ def make_check(flavour, mutator, entries):
             a = norm(w.call(e))
             if a != final[e]:
                 return 'stale', ('stale-answer-survives:' + e, a, final[e])
+        # ... and the lookup object still hears about the specifications it
+        # looked up: a later change of one of them reaches every entry point
+        follow_up(w, mutator)
+        for e in ENTRIES:
+            a = norm(w.call(e))
+            if a != later[e]:
+                return 'stale', ('stale-answer-survives-a-later-change-of-the-specification:' + e, a, later[e])
         return ''.join(labels), None
     return check
 
@@ -993,6 +1023,14 @@ def run(ctx):
                         add(flavour, mut, [e], 1)
                     else:
                         add(flavour, mut, [e], 2, True)
+            # the lookup object watches the looked-up specifications already
+            for mut in ('register', 'unregister', 'subscribe', 'unsubscribe', 'register-new-provided'):
+                for e in ('lookup', 'subscriptions', 'queryAdapter'):
+                    if quick:
+                        add(flavour + '+watching', mut, [e], 1)
+                    else:
+                        add(flavour + '+watching', mut, [e], 2, True)
+            add(flavour + '+watching', None, ['lookup', 'lookupAll'], 1 if quick else 2, not quick)
             if quick:
                 if flavour == 'adapter':
                     add(flavour, 'register', ['lookup'], 2, True)
@@ -1054,6 +1092,7 @@ def run(ctx):
                                                stderr=r.stderr_tail[-1500:])))
                 continue
             nsched += r['schedules']
+            ctx.add(schedules_in_which_a_thread_waited_for_a_library_lock=r.get('lock_waits', 0))
             a = agg.setdefault(label, dict(schedules=0, max_points=0, outcomes={}, tasks=0))
             a['schedules'] += r['schedules']
             a['tasks'] += 1
@@ -1095,9 +1134,11 @@ def run(ctx):
     ctx.count['traces_validated_against_impl'] = ninj + nsched
     ctx.count['distinct_nontrivial'] = len(outcomes) + 1
     ctx.info['schedule_outcomes'] = outcomes
+    ctx.info['library_locks_made_scheduler_aware'] = ADOPTED_LOCKS
     ctx.sample(dict(injection=dict(flavour='verifying', entry='lookup', site='generation', action='register-better', warm=True)))
     ctx.sample(dict(schedule_harness='adapter/register||lookup', meaning='outcome letters: A = lookup saw the after-answer, B = before-answer, = both equal'))
     ctx.assumptions += ['scheduling points are call/line/return trace events in adapter.py, interface.py, declarations.py; C code between two events is atomic (GIL); memory ordering is not modelled',
+                        'module-level locks of those three modules (and any lock they create through their threading global) are replaced by scheduler-aware locks: a thread that waits for one is not enabled until its owner releases it; a schedule in which nobody is enabled is reported as a deadlock, an execution that does not end within 120 s as a hang',
                         'memory safety is decided twice: through the ownership audit (refcount of the cache container at the call-out + whether it was written afterwards), and by running the enumerated injection scenarios unpinned under valgrind memcheck with PYTHONMALLOC=malloc (C implementation); the thread schedules are only covered by the audit',
                         'callbacks the property does not name (__hash__/__bool__ of keys) are outside the alphabet']
     return finish(
